@@ -595,6 +595,14 @@ class Interp:
                         raise AbsRaise(exc, node, self.where(node)[1])
                     return
 
+    def s_Match(self, st, env):
+        from .astutil import desugar_match
+
+        stmts = desugar_match(st)
+        if stmts is None:
+            raise AnalysisError(f"match statement with a pattern outside the supported subset ({self.where(st)[1]})")
+        return self.exec_block(stmts, env)
+
     def s_With(self, st, env):
         for it in st.items:
             v = self.eval(it.context_expr, env)
